@@ -109,6 +109,25 @@ def field_decremented_elsewhere(ctx, adt_ty, field_idx):
     return False
 
 
+INT_TYPES = ("usize", "u8", "u16", "u32", "u64", "u128", "isize", "i8", "i16", "i32", "i64")
+
+
+def int_switch_as_compare(b, sb, e, vals):
+    """`match n { 0 => A, _ => B }`: a switch on an integer place -> (`n == 0`, taken_true) for the arm set `vals`;
+    None when the switch is not of that form"""
+    dop = b.blocks[sb]["term"]["discr"]
+    dty = (dop.get("pl") or {}).get("ty") or dop.get("ty") or ""
+    e = strip_refs(e)
+    if dty not in INT_TYPES or e.kind == "binop":
+        return None
+    cmp_ = E(("binop", "Eq", e, E(("const", "0", dty))))
+    if vals == frozenset(["0"]):
+        return cmp_, True
+    if "0" not in vals:
+        return cmp_, False
+    return None
+
+
 def classify_value_as_guard(ctx, b, e, taken_true):
     """What does branching on value `e` (taken when true / false) mean for a
     release?  -> (kind, detail) or None."""
@@ -163,6 +182,10 @@ def classify_value_as_guard(ctx, b, e, taken_true):
     if pe.kind == "field" and (pe[1].kind == "env" or (pe[1].kind == "deref" and pe[1][1].kind == "env")) and \
             b.kind == "coroutine" and b.coroutine_kind and "Fn" in b.coroutine_kind:
         return ("PARAM", pe[2], taken_true)
+    # a flag that is constantly false in this configuration (e.g. `interrupted` without the `interruptible` feature): dead branch
+    srcs0 = sources_of_expr(ctx, b, e)
+    if srcs0 and all(s.kind == "const" and str(s[1]) in ("0", "false") and len(s) > 2 and s[2] == "bool" for s in srcs0):
+        return ("NEVER" if taken_true else "UNGUARDED", "flag that is always false here")
     # interrupted flag
     mapper = interrupt_mapper(ctx) if m.interruptible else None
     if mapper is not None:
@@ -223,7 +246,7 @@ def classify_release_guard(ctx, b, bb, with_params=False):
             ks.append(c)
         if arms and any(c is not None and c[0] in ("EMPTY", "FINISHED", "INTERRUPTED") for c in ks):
             # an unclassified disjunct only adds releases; the obligations of the classified ones are still met
-            alt = tuple(c[0] if c is not None and c[0] in ("EMPTY", "FINISHED", "INTERRUPTED") else "?" for c in ks)
+            alt = tuple(c[0] if c is not None and c[0] in ("EMPTY", "FINISHED", "INTERRUPTED", "NEVER") else "?" for c in ks)
             r = ("OR:" + "+".join(alt), " || ".join(c[1] if c is not None else "?" for c in ks), [])
     if with_params:
         return r
@@ -245,6 +268,10 @@ def _classify_release_guard(ctx, b, bb):
             continue
         taken_true = "otherwise" in vals and "0" not in vals
         taken_false = "0" in vals and "otherwise" not in vals
+        ic = int_switch_as_compare(b, sb, e, vals)
+        if ic is not None:
+            e, taken_true = ic
+            taken_false = not taken_true
         if not (taken_true or taken_false):
             continue
         r = classify_value_as_guard(ctx, b, e, taken_true)
@@ -252,10 +279,12 @@ def _classify_release_guard(ctx, b, bb):
             continue
         if r[0] == "PARAM":
             params.append((r[1], r[2]))
+        elif r[0] == "UNGUARDED":
+            continue
         elif r[0] != "NONZERO":
             kinds.append(r)
     res = None
-    for k in ("FAILED", "INTERRUPTED", "FINISHED", "EMPTY"):
+    for k in ("NEVER", "FAILED", "INTERRUPTED", "FINISHED", "EMPTY"):
         for kk, d in kinds:
             if kk == k and res is None:
                 res = (k, d)
@@ -348,7 +377,11 @@ def empty_by_construction(ctx, entry, role="DONE"):
                     guarded = False
                     for sb, de, vals in cond_guards(b, bb):
                         tt = "otherwise" in vals and "0" not in vals
-                        r = classify_value_as_guard(ctx, b, strip_refs(de), tt)
+                        ge = strip_refs(de)
+                        ic = int_switch_as_compare(b, sb, ge, vals)
+                        if ic is not None:
+                            ge, tt = ic
+                        r = classify_value_as_guard(ctx, b, ge, tt)
                         if r and r[0] == "NONZERO":
                             guarded = True
                         r2 = classify_value_as_guard(ctx, b, strip_refs(de), not tt) if r is None else None
@@ -453,7 +486,7 @@ def T5(ctx, rule="T5"):
     functions are still queued."""
     m = ctx.model
     sites = release_sites(ctx)
-    GOOD = ("EMPTY", "FINISHED", "INTERRUPTED", "FAILED")
+    GOOD = ("EMPTY", "FINISHED", "INTERRUPTED", "FAILED", "NEVER")
     def good(k):
         return k in GOOD or (k or "").startswith("OR:") and all(x in GOOD for x in k[3:].split("+"))
     n = 0
